@@ -57,6 +57,9 @@ class AnnotatedValue:
         return self.name
 
     def __eq__(self, other):
+        if isinstance(other, AnnotatedValue) and type(other) is not type(self):
+            # A parameter never equals a let constant of the same name and kind
+            return False
         try:
             return self.name == other.name and self.kind == other.kind
         except AttributeError:
